@@ -296,3 +296,62 @@ func (s *Session) emitAxioms() error {
 	}
 	return nil
 }
+
+func instSuffix(tf, fn *ssa.Function) string {
+	if tf == fn {
+		return ""
+	}
+	if i := strings.Index(tf.Name(), "["); i >= 0 {
+		return strings.ReplaceAll(tf.Name()[i:], modPrefix, "")
+	}
+	return ""
+}
+
+// instantiationsOf returns the instantiations of generic function g that are called from the loaded packages.
+func (s *Session) instantiationsOf(g *ssa.Function) []*ssa.Function {
+	seen := map[*ssa.Function]bool{}
+	var out []*ssa.Function
+	var visit func(f *ssa.Function)
+	visited := map[*ssa.Function]bool{}
+	visit = func(f *ssa.Function) {
+		if f == nil || visited[f] {
+			return
+		}
+		visited[f] = true
+		for _, b := range f.Blocks {
+			for _, ins := range b.Instrs {
+				if ci, ok := ins.(ssa.CallInstruction); ok {
+					if callee := ci.Common().StaticCallee(); callee != nil {
+						if callee.Origin() == g && !seen[callee] {
+							seen[callee] = true
+							out = append(out, callee)
+						}
+						if callee.Origin() != nil {
+							visit(callee) // instantiated generics may call further instantiations
+						}
+					}
+				}
+			}
+		}
+		for _, af := range f.AnonFuncs {
+			visit(af)
+		}
+	}
+	for _, sp := range s.spkgs {
+		for _, m := range sp.Members {
+			switch m := m.(type) {
+			case *ssa.Function:
+				visit(m)
+			case *ssa.Type:
+				for _, t := range []types.Type{m.Type(), types.NewPointer(m.Type())} {
+					ms := s.prog.MethodSets.MethodSet(t)
+					for i := 0; i < ms.Len(); i++ {
+						visit(s.prog.MethodValue(ms.At(i)))
+					}
+				}
+			}
+		}
+	}
+	sort.Slice(out, func(i, j int) bool { return out[i].Name() < out[j].Name() })
+	return out
+}
